@@ -59,6 +59,11 @@ def programs(ctx):
             progs.append([base_line, "Watch: X > 1", f"    {t} Mark: a", "Wait: 3s"])
             for t2 in THRESH[unit][:2]:
                 progs.append([base_line, f"{t} Mark: a", f"{t2} Mark: b"])
+        if unit == "s":
+            # a top-level threshold after a block / a Watch body has run (the program scope's clock must have kept running)
+            for t in ("1.05", "1.5"):
+                progs.append([base_line, "Block: B", "    Wait: 0.5s", "    End block", f"{t} Mark: a"])
+                progs.append([base_line, "Watch: X > 1", "    Wait: 0.5s", "Wait: 0.7s", f"{t} Mark: a"])
         if unit == "L":
             # a threshold in an outer block after a nested block has ended (the block clock must still be the outer block's)
             for t in THRESH[unit]:
@@ -157,12 +162,28 @@ def judge(lines, run: Run, forced=False):
             if base in UNIT_SECONDS and li["parent"] is None and not run.obs[s]["pre_clocks"]["Block"]:
                 # independent lower bound: the scope clock of the run cannot have reached T unless that much time passed in
                 # ticks that were Running at one end at least, counted from the last reset of the clock (2 ticks of slack)
-                k0 = max([k for k in range(1, s + 1) if run.obs[k]["pre_clocks"]["Scope Time"] < run.obs[k - 1]["pre_clocks"]["Scope Time"]
-                          or run.obs[k]["pre_clocks"]["Scope Time"] == 0] + [0])
+                # (the program scope's clock starts with the run; the Scope Time tag shows the innermost open scope, so it drops
+                # while a Block / Watch body is active and comes back afterwards - no restart of the program scope's clock)
+                k0 = max(next((k for k in range(len(run.obs)) if run.obs[k]["pre_clocks"]["Scope Time"] > 0), 1) - 1, 0)
                 ref = Decimal(str(DT)) * sum(1 for k in range(k0, s) if "Running" in (run.obs[k]["pre_state"], run.obs[k]["state"]))
+                # ... and an upper bound: once that much time has passed in ticks that were Running at both ends (and the
+                # predecessor has completed, i.e. the line has been visited) the instruction must start within 2 ticks
+                strict = 0
+                k_t = None
+                for k in range(k0, s + 1):
+                    if Decimal(str(DT)) * strict >= Tn:
+                        k_t = k
+                        break
+                    if run.obs[k]["pre_state"] == "Running" and run.obs[k]["state"] == "Running":
+                        strict += 1
+                if k_t is not None and s > max(v, k_t) + 2 and all(interpreter_ran(run.obs[k]) for k in range(max(v, k_t), s + 1)):
+                    probs.append((f"C03:threshold-late:reference-clock:{base}",
+                                  f"{raw!r} first visited in tick {v} started only in tick {s}: since the scope clock last restarted "
+                                  f"(tick {k0}) {T} {base} had passed in Running ticks by tick {k_t} (engine's Scope Time then "
+                                  f"{run.obs[k_t]['pre_clocks']['Scope Time']})"))
                 if ref + 2 * Decimal(str(DT)) < Tn:
                     probs.append((f"C03:threshold-early:reference-clock:{base}",
-                                  f"{raw!r} started in tick {s}: since the scope clock last restarted (tick {k0}) only {ref} s passed in "
+                                  f"{raw!r} started in tick {s}: since the run's scope clock started (tick {k0}) only {ref} s passed in "
                                   f"ticks that were Running, threshold {T} {base} (engine's Scope Time {clock})"))
             if base == "L" and li["parent"] is not None and info[li["parent"]]["name"] == "Block":
                 # independent lower bound for the block's volume clock: the harness feeds 0.05 L per tick, so since the
